@@ -75,6 +75,11 @@ fn vx_hash_item<T: Hash>(value: T, hasher: &mut MurmurHash3X64128)
   ensures final(hasher).digest() == murmur128(old(hasher).seed_of(), value)
 { unimplemented!() /* value.hash(hasher) */ }
 
+// R12b: a DOCUMENTED panic ("# Panics: if lg_k is not in the range") is modelled as 'returns only if the condition holds': the
+// condition is a tagged POSTCONDITION (`*_validated`) instead of a precondition, so weakening or removing the check is noticed.
+// Body = the original statement.
+#[verifier::external_body] fn vx_documented_panic(c: bool) ensures c { assert!(c); }
+
 pub uninterp spec fn seed_hash_spec(seed: u64) -> u16;
 // opaque: contract VERBATIM from the one PROVED in contracts/hash_murmur.rs (panics iff the seed hash is zero)
 #[verifier::external_body]
@@ -291,18 +296,21 @@ Self :: new ( DEFAULT_LG_K ) }
         &&& self.kxp == k_as_f64(lg_k) && self.hip_est_accum == 0.0f64
     }
 
-    fn new ( lg_k : u8 ) -> ( r : Self ) requires 4 <= lg_k <= 26 , seed_hash_spec ( DEFAULT_UPDATE_SEED ) != 0 ensures
+    fn new ( lg_k : u8 ) -> ( r : Self ) requires seed_hash_spec ( DEFAULT_UPDATE_SEED ) != 0 ensures
+/*@C05.new.lg_k_validated*/ 4 <= lg_k <= 26 ,
 /*@C05.new.empty*/ r . fresh ( lg_k , DEFAULT_UPDATE_SEED ) , r . wf ( ) , r . count_ok ( ) {
 Self :: with_seed ( lg_k , DEFAULT_UPDATE_SEED ) }
 
 
-    // the range assert is the documented precondition ("Panics if lg_k is not in the range", "or the computed seed hash is zero")
-    fn with_seed ( lg_k : u8 , seed : u64 ) -> ( r : Self ) requires 4 <= lg_k <= 26 , seed_hash_spec ( seed ) != 0 ensures
+    // the range assert is a documented panic ("Panics if lg_k is not in the range"): R12b, the function returns only for valid lg_k
+    fn with_seed ( lg_k : u8 , seed : u64 ) -> ( r : Self ) requires seed_hash_spec ( seed ) != 0 ensures
+/*@C05.with_seed.lg_k_validated*/ 4 <= lg_k <= 26 ,
 /*@C05.new.empty*/ r . fresh ( lg_k , seed ) ,
 /*@C05.new.wf*/ r . wf ( ) ,
 /*@C05.new.matrix_empty*/ forall | row : int , c : int | 0 <= row < r . k ( ) && 0 <= c < 64 ==> ! r . mbit ( row , c ) ,
 /*@C05.validate*/ r . count_ok ( ) , {
-assert! ( ( MIN_LG_K ..= MAX_LG_K ) . contains ( & lg_k ) ) ;
+vx_documented_panic ( ( MIN_LG_K ..= MAX_LG_K ) . contains ( & lg_k ) ) ;
+assert ( /*@C05.with_seed.lg_k_validated*/ 4 <= lg_k <= 26 ) ;
 proof {
 lemma_k_bound ( lg_k ) ;
 assert forall | s : CpcSketch | s . num_coupons == 0 && s . surprising_value_table is None && s . sliding_window @ . len ( ) == 0 && s . window_offset == 0 && s . lg_k == lg_k implies # [ trigger ] s . count_ok ( ) by {
@@ -403,11 +411,13 @@ self . update_f64 ( vx_f32_to_f64 ( value ) ) ;
 }
 
 
-    fn max_serialized_bytes ( lg_k : u8 ) -> ( r : usize ) requires 4 <= lg_k <= 26 ensures
+    fn max_serialized_bytes ( lg_k : u8 ) -> ( r : usize ) ensures
+/*@C18.cpc.max_bytes_lg_k_validated*/ 4 <= lg_k <= 26 ,
 /*@C18.cpc.max_bytes_value*/ r == max_bytes_spec ( lg_k ) ,
 /*@C18.cpc.max_bytes_monotone*/ forall | j : u8 | 4 <= j < lg_k ==> max_bytes_spec ( j ) < r ,
 /*@C18.cpc.max_bytes_range*/ 40 + pow2 ( lg_k as nat ) / 2 <= r <= 40 + 2 * pow2 ( lg_k as nat ) , {
-assert! ( ( MIN_LG_K ..= MAX_LG_K ) . contains ( & lg_k ) ) ;
+vx_documented_panic ( ( MIN_LG_K ..= MAX_LG_K ) . contains ( & lg_k ) ) ;
+assert ( /*@C18.cpc.max_bytes_lg_k_validated*/ 4 <= lg_k <= 26 ) ;
 const MAX_PREAMBLE_SIZE_BYTES : usize = 40 ;
 const EMPIRICAL_SIZE_MAX_LGK : u8 = 19 ;
 const EMPIRICAL_MAX_SIZE_FACTOR : f64 = 0.6 ;
